@@ -533,3 +533,7 @@ def run(facts, rep, tier):
     rep.rule("C16-R4", "Comparator sanity: inside every comparator closure (sorted_by / sort_by / max_by ...) each comparison relates the first element to the second; a comparison "
              "whose operands both come from the same element makes that level constant, so ties are broken by input order (load/insert history, hash order).")
     rule_r4(facts, rep)
+    rep.rule("C16-R5", "= C18-R1: the path enumeration walks the referrers of a note in hash order; its result is a *set* independent of that order only if the visited set is a stack "
+             "discipline (insert on entry, remove on exit): a persistent visited set lets the first branch explored consume shared ancestors, so which paths exist depends on the hash seed.")
+    from . import c18
+    c18.rule_r1(facts, rep, "C16-R5")
